@@ -49,17 +49,36 @@ pub(crate) fn crc_oracle(buf: &[u8]) -> Result<()> {
 }
 
 // ---------------------------------------------------------------------------------------------
-// M-tru / M-tri: truncation monitors for Serializer::write_usized / write_isized.
-// They replace the byte producing function by an assertion that the value fits the width the
-// caller chose. Used where the *choice of width* is the subject.
+// M-log: monitors replacing the primitive writes of `Serializer`. Instead of materialising bytes
+// (a write whose width CBMC cannot fold to a constant costs > 1M variables) every primitive write
+// is recorded in a ghost log as (kind, value, width) and the harness compares the log with the
+// sequence the pinned layout prescribes. `write_usized` / `write_isized` additionally assert that
+// the value fits the width the caller chose (M-tru / M-tri: silent truncation).
+// That the primitives themselves emit little-endian bytes in call order is C14's obligation
+// (c14_prim_*), decided on the real functions with literal widths.
 // ---------------------------------------------------------------------------------------------
+pub(crate) const LOG_CAP: usize = 24;
+/// kind: 1 = unsigned integer, 2 = signed integer, 3 = raw data (value = first 8 bytes, LE)
+pub(crate) static mut LOG: [(u8, u64, usize); LOG_CAP] = [(0, 0, 0); LOG_CAP];
+pub(crate) static mut LOG_N: usize = 0;
 pub(crate) static mut MON_WRITES: usize = 0;
 
-pub(crate) fn mon_write_usized(
-    _ser: &mut Serializer,
-    value: u64,
-    size: ByteSize,
-) -> IoResult<usize> {
+pub(crate) fn log_reset() {
+    unsafe {
+        LOG_N = 0;
+        MON_WRITES = 0;
+    }
+}
+
+fn log_push(kind: u8, value: u64, size: usize) {
+    unsafe {
+        assert!(LOG_N < LOG_CAP, "VERIF: harness log capacity exceeded");
+        LOG[LOG_N] = (kind, value, size);
+        LOG_N += 1;
+    }
+}
+
+pub(crate) fn mon_write_usized(_ser: &mut Serializer, value: u64, size: ByteSize) -> IoResult<usize> {
     let size = size as usize;
     unsafe {
         MON_WRITES += 1;
@@ -68,14 +87,11 @@ pub(crate) fn mon_write_usized(
         size >= 8 || value < (1u64 << (8 * size)),
         "VERIF: unsigned value does not fit the width chosen by the writer"
     );
+    log_push(1, value, size);
     Ok(size)
 }
 
-pub(crate) fn mon_write_isized(
-    _ser: &mut Serializer,
-    value: i64,
-    size: ByteSize,
-) -> IoResult<usize> {
+pub(crate) fn mon_write_isized(_ser: &mut Serializer, value: i64, size: ByteSize) -> IoResult<usize> {
     let size = size as usize;
     unsafe {
         MON_WRITES += 1;
@@ -87,7 +103,97 @@ pub(crate) fn mon_write_isized(
             "VERIF: signed value does not fit the width chosen by the writer"
         );
     }
+    log_push(2, value as u64, size);
     Ok(size)
+}
+
+pub(crate) fn mon_write_u8(_ser: &mut Serializer, value: u8) -> IoResult<usize> {
+    log_push(1, value as u64, 1);
+    Ok(1)
+}
+pub(crate) fn mon_write_u16(_ser: &mut Serializer, value: u16) -> IoResult<usize> {
+    log_push(1, value as u64, 2);
+    Ok(2)
+}
+pub(crate) fn mon_write_u32(_ser: &mut Serializer, value: u32) -> IoResult<usize> {
+    log_push(1, value as u64, 4);
+    Ok(4)
+}
+pub(crate) fn mon_write_u64(_ser: &mut Serializer, value: u64) -> IoResult<usize> {
+    log_push(1, value, 8);
+    Ok(8)
+}
+pub(crate) fn mon_write_data(_ser: &mut Serializer, buf: &[u8]) -> IoResult<usize> {
+    if buf.len() > 0 {
+        let mut v: u64 = 0;
+        let mut i = 0;
+        while i < buf.len() && i < 8 {
+            v |= (buf[i] as u64) << (8 * i);
+            i += 1;
+        }
+        log_push(3, v, buf.len());
+    }
+    Ok(buf.len())
+}
+
+/// An expected primitive write.
+#[derive(Clone, Copy)]
+pub(crate) struct W(pub u8, pub u64, pub usize);
+pub(crate) fn wu(v: u64, size: usize) -> W {
+    W(1, v, size)
+}
+pub(crate) fn wi(v: i64, size: usize) -> W {
+    W(2, v as u64, size)
+}
+/// raw data of `size` bytes whose first (up to 8) bytes are `v` little endian
+pub(crate) fn wd(v: u64, size: usize) -> W {
+    W(3, v, size)
+}
+
+/// Symbolically: the ghost log equals `exp` (zero length data writes are ignored on both sides).
+/// Natively (replay, no stubs): `real` holds the bytes actually written; they must equal the
+/// reference encoding of `exp` (little endian, in order).
+pub(crate) fn expect_writes(exp: &[W], real: &[u8]) {
+    if is_symbolic() {
+        let mut k = 0;
+        let mut i = 0;
+        while i < exp.len() {
+            let W(kind, v, size) = exp[i];
+            if !(kind == 3 && size == 0) {
+                assert!(k < unsafe { LOG_N }, "VERIF: fewer fields written than the layout prescribes");
+                let (lk, lv, ls) = unsafe { LOG[k] };
+                assert!(ls == size, "VERIF: field width differs from the layout");
+                // signed and unsigned writes of the same width produce the same bytes iff the
+                // values agree on `size` bytes
+                let mask = if size >= 8 { u64::MAX } else { (1u64 << (8 * size)) - 1 };
+                if kind == 3 || lk == 3 {
+                    assert!(lk == kind, "VERIF: field kind differs from the layout");
+                    assert!(lv == v, "VERIF: data bytes differ from the layout");
+                } else {
+                    assert!((lv & mask) == (v & mask), "VERIF: field value differs from the layout");
+                }
+                k += 1;
+            }
+            i += 1;
+        }
+        assert!(k == unsafe { LOG_N }, "VERIF: more fields written than the layout prescribes");
+    } else {
+        let mut pos = 0usize;
+        for W(kind, v, size) in exp.iter().copied() {
+            assert!(pos + size <= real.len(), "VERIF: fewer bytes written than the layout prescribes");
+            let n = if size < 8 { size } else { 8 };
+            for i in 0..n {
+                assert!(real[pos + i] == (v >> (8 * i)) as u8, "VERIF: bytes written differ from the layout");
+            }
+            if kind == 3 {
+                for i in n..size {
+                    assert!(real[pos + i] == 0, "VERIF: bytes written differ from the layout");
+                }
+            }
+            pos += size;
+        }
+        assert!(pos == real.len(), "VERIF: more bytes written than the layout prescribes");
+    }
 }
 
 // ---------------------------------------------------------------------------------------------
@@ -251,3 +357,21 @@ macro_rules! vharness {
     };
 }
 pub(crate) use vharness;
+
+/// vharness + M-log on every primitive write of `Serializer`.
+macro_rules! wharness {
+    ($(#[$m:meta])* fn $name:ident() $body:block) => {
+        crate::verif_common::vharness! {
+            #[kani::stub(crate::bases::Serializer::write_usized, crate::verif_common::mon_write_usized)]
+            #[kani::stub(crate::bases::Serializer::write_isized, crate::verif_common::mon_write_isized)]
+            #[kani::stub(crate::bases::Serializer::write_u8, crate::verif_common::mon_write_u8)]
+            #[kani::stub(crate::bases::Serializer::write_u16, crate::verif_common::mon_write_u16)]
+            #[kani::stub(crate::bases::Serializer::write_u32, crate::verif_common::mon_write_u32)]
+            #[kani::stub(crate::bases::Serializer::write_u64, crate::verif_common::mon_write_u64)]
+            #[kani::stub(crate::bases::Serializer::write_data, crate::verif_common::mon_write_data)]
+            $(#[$m])*
+            fn $name() $body
+        }
+    };
+}
+pub(crate) use wharness;
